@@ -144,7 +144,7 @@ var C09Q = &fw.Prop{
 	Protected: func(line string) bool {
 		return strings.HasPrefix(line, "v2.reset") || strings.HasPrefix(line, "v2.watch") || strings.HasPrefix(line, "v2.target")
 	},
-	Sigs: map[string]func(fw.Case, []string, string) bool{"firstUnapplied": firstUnappliedSig, "serializableWait": serializableWaitSig, "applyFailedSibling": applyFailedSiblingSig},
+	Sigs: map[string]func(fw.Case, []string, string) bool{"firstUnapplied": firstUnappliedSig, "serializableWait": serializableWaitSig, "applyFailedSibling": applyFailedSiblingSig, "lostProposalEvent": lostProposalEventSig},
 }
 
 var docP = Profile{Targets: 2, Sets: 5, Faults: false, Verdicts: true, DevErrors: false, Injections: true,
